@@ -214,6 +214,11 @@ func (o *resyncFakeOutput) StartPoint(ctx context.Context, runIds []string) (Sta
 
 func (o *resyncFakeOutput) Send(ctx context.Context, reader ChannelReader) error { return nil }
 
+// DiscardStartPoint : the source refused to continue (added to the Output interface by a later repair)
+func (o *resyncFakeOutput) DiscardStartPoint(ctx context.Context, runId string) error {
+	return o.SetRunId(ctx, runId)
+}
+
 func (o *resyncFakeOutput) SetRunId(ctx context.Context, runId string) error {
 	if o.failSetRunId > 0 {
 		o.failSetRunId--
